@@ -68,10 +68,30 @@ def value_equality_matters(prog) -> bool:
     return stream.value_equality_matters(prog, _ambient)
 
 
+def model_undefined(result, failure, ident_keys=False) -> bool:
+    """the model (or its identity-keyed twin) cannot answer some listing/time query after the failing command:
+    the relation structure it built is cyclic as well (the implementation raised RecursionError)."""
+    global _ambient
+    from . import progs, stream
+    if not ident_keys and 'undef' in [x for x in result['model'] if x]:
+        return True
+    if _ambient is None:
+        _ambient = progs.ambient_durations()
+    prog = [c for c in result['prog'][:failure['at'] + 1] if c[0] != 'collisions']
+    nc = sum(1 for c in prog if c[0] in ('new', 'copy'))
+    out = stream.run_model_many([prog + [['list', c] for c in range(nc)]], _ambient, ident_keys=ident_keys)[0]
+    return 'undef' in out
+
+
 @matcher('value_equal_keys_in_copy_lookup')
 def _r3(prop, result, failure, finding):
     # any copy-related predicate failure, provided the model (which agrees with the implementation on this input)
     # reports a key collision, or builds a different heap once its lookups are keyed by identity instead of value
+    if failure.get('probe') == 'undef':
+        # unbounded recursion (a cyclic relation): R3 iff the identity-keyed twin of the model answers every query of
+        # the same program, i.e. the cycle exists only because a lookup conflated value-equal objects (typically a
+        # stale empty sub-circuit that compares equal to the circuit being copied: the copy then refers to its parent)
+        return model_undefined(result, failure) and not model_undefined(result, failure, ident_keys=True)
     if failure.get('probe') not in ('C05', 'C07', 'C03'):
         return False
     if model_collisions(result) > 0:
@@ -91,13 +111,17 @@ def _r24(prop, result, failure, finding):
 def _r14(prop, result, failure, finding):
     if failure.get('what') != 'listing or time query recurses without bound':
         return False
+    # input class: a flatten after a group (latest-of) relation came into existence — created by an unrolling
+    # (apply_modifiers) or given explicitly as a MultiRelationLink; signature: the model recurses as well
     prog = result['prog'][:failure['at'] + 1]
-    applied = set()
+    group = False
     for cmd in prog:
         if cmd[0] == 'apply':
-            applied.add(cmd[1])
-        if cmd[0] == 'flatten' and cmd[1] in applied:
-            return 'undef' in [x for x in result['model'] if x]
+            group = True
+        if cmd[0] == 'op' and cmd[9] is not None and isinstance(cmd[9][0], list):
+            group = True
+        if cmd[0] == 'flatten' and group:
+            return model_undefined(result, failure)
     return False
 
 
